@@ -18,12 +18,12 @@ type goldenCase struct {
 	v    Val
 }
 
-func iv(i int64) Val   { return Val{I: i} }
-func uv(u uint64) Val  { return Val{U: u} }
-func sv(s string) Val  { return Val{S: []byte(s)} }
+func iv(i int64) Val     { return Val{I: i} }
+func uv(u uint64) Val    { return Val{U: u} }
+func sv(s string) Val    { return Val{S: []byte(s)} }
 func f64v(f float64) Val { return Val{F: math.Float64bits(f)} }
 func f32v(f float32) Val { return Val{F: uint64(math.Float32bits(f))} }
-func lv(vs ...Val) Val { return Val{L: vs} }
+func lv(vs ...Val) Val   { return Val{L: vs} }
 
 func goldenCases() []goldenCase {
 	structT := StructOf(
